@@ -261,6 +261,10 @@ class ElementNode(XmlNode):
             Whether the parsed object can fit in one of class
             parameters or not.
         """
+        if qname is None:
+            # A tail text entry, it can only be bound by a mixed wildcard
+            return False
+
         wrapper = self.pop_wrapper(qname)
         for var in self.meta.find_children(qname):
             if wrapper and var.wrapper_qname != wrapper:
